@@ -109,7 +109,7 @@ class TrajectorySH:
         k = last_snap["active"]
         rho = last_snap["density_matrix"]
         weight = log.weight
-        previous_steps = len(log)
+        previous_steps = len(log) - 1  # the log also holds the initial snapshot
 
         # use inferred data if available, but let kwargs override
         for key, val in [["dt", dt]]:
